@@ -197,7 +197,8 @@ func (s *orRuleSetLoader) makeTypeFromRuleSet() {
 	CompileBasic(&typ, false)
 
 	lex := s.node.BasisLexEventOfSchemaForNode()
-	name := s.rootSchema.AddUnnamedType(&typ, lex.File(), lex.Begin())
+	// The type's root keeps the node's position in the file, so the type begins at 0.
+	name := s.rootSchema.AddUnnamedType(&typ, lex.File(), 0)
 
 	c.AddNameWithASTNode(name, s.typeRoot.Type().String(), an)
 }
